@@ -340,8 +340,10 @@ func main() {
 				{2, "/NextVerificationVectorContribution/verification_vector/data[]", "/NextShareContribution/value[]", "/PrevVerificationVector/verification_vector/data[]"}},
 			"redistAnchor": {{2, "/NextVerificationVectorContribution/verification_vector/data[]", "/NextShareContribution/value[]", ""},
 				{2, "/NextVerificationVectorContribution/verification_vector/data[]", "/NextShareContribution/value[]", "/PrevVerificationVector/verification_vector/data[]"}},
-			"redistNew": {{2, "/NextVerificationVectorContribution/verification_vector/data[]", "/NextShareContribution/value[]", ""}},
+			"redistNew": {{2, "/NextVerificationVectorContribution/verification_vector/data[]", "/NextShareContribution/value[]", ""},
+				{2, "/NextVerificationVectorContribution/verification_vector/data[]", "/NextShareContribution/value[]", "/PrevVerificationVector/verification_vector/data[]"}},
 		}
+
 		for _, stg := range strats[sc.Name] {
 			for _, dev := range all {
 				if dev == b.Trusted || (b.IsPrev != nil && !b.IsPrev[dev]) {
@@ -379,7 +381,7 @@ func main() {
 					return t.Encode(), false
 				}}
 				if *intent != "" {
-					w.Emit(map[string]any{"a": "intent", "case": caseNo, "k": fmt.Sprintf("%s:r%d:strategy:%s", sc.Name, stg.round, map[bool]string{false: "redeal", true: "redealClaim"}[stg.claim != ""]), "proto": sc.Name, "round": stg.round, "kind": "*", "from": uint64(dev), "to": 0, "leaf": "/strategy", "path": "/strategy", "op": "redeal"})
+					w.Emit(map[string]any{"a": "intent", "case": caseNo, "k": fmt.Sprintf("%s:r%d:strategy:%s", sc.Name, stg.round, stratName(stg.round, stg.claim)), "proto": sc.Name, "round": stg.round, "kind": "*", "from": uint64(dev), "to": 0, "leaf": "/strategy", "path": "/strategy", "op": "redeal"})
 					w.Flush()
 				}
 				res := proto.Run(bt.Parties, tam, nil)
@@ -389,12 +391,98 @@ func main() {
 						comp = append(comp, id)
 					}
 				}
-				w.Emit(map[string]any{"a": "tamper", "case": caseNo, "k": fmt.Sprintf("%s:r%d:strategy:%s", sc.Name, stg.round, map[bool]string{false: "redeal", true: "redealClaim"}[stg.claim != ""]), "proto": sc.Name, "round": stg.round, "kind": "b",
-					"from": uint64(dev), "to": 0, "leaf": "/strategy", "path": "/strategy", "idx": -1, "op": map[bool]string{false: "redeal", true: "redealClaim"}[stg.claim != ""], "changed": touched,
+				w.Emit(map[string]any{"a": "tamper", "case": caseNo, "k": fmt.Sprintf("%s:r%d:strategy:%s", sc.Name, stg.round, stratName(stg.round, stg.claim)), "proto": sc.Name, "round": stg.round, "kind": "b",
+					"from": uint64(dev), "to": 0, "leaf": "/strategy", "path": "/strategy", "idx": -1, "op": stratName(stg.round, stg.claim), "changed": touched,
 					"rejects": rejectsJ(res.Rejects), "completed": ids(comp), "out": bt.Outputs(comp), "stop": res.StopRound,
 					"parties": ids(all), "senderIsPrev": bt.IsPrev == nil || bt.IsPrev[dev]})
 			}
 		}
+		// ---- redistribution: the zero sharing of round 1 consistently re-dealt as a sharing of delta over the unanimity programme
+		// of the previous holders (rows e_2..e_n for all but the highest identifier, (1,-1,..,-1) for the highest: only its
+		// share moves), followed - when the deviator itself is that holder and so never puts the moved share on the wire - by
+		// the matching re-dealt contribution in round 2.  Every Feldman check passes; only "a zero sharing commits to zero"
+		// (HJKY) and "the key is unchanged" (round 3) can object.
+		if sc.Name == "redist" || sc.Name == "redistAnchor" || sc.Name == "redistNew" {
+			var maxPrev ID
+			for _, id := range all {
+				if (b.IsPrev == nil || b.IsPrev[id]) && id > maxPrev {
+					maxPrev = id
+				}
+			}
+			for _, dev := range all {
+				if dev == b.Trusted || (b.IsPrev != nil && !b.IsPrev[dev]) {
+					continue
+				}
+				caseNo++
+				if caseNo < *startAt {
+					continue
+				}
+				delta := toy.FromInt(1 + uint64(caseNo)%5)
+				bt := sc.Build(scen.NewStreams(sd))
+				touched := false
+				shiftElem := func(l *proto.Leaf) {
+					if e, err := toy.NewGroup().FromBytes(l.Bytes); err == nil {
+						l.SetBytes(e.Op(toy.NewGroup().ScalarBaseOp(delta)).Bytes())
+						touched = true
+					}
+				}
+				shiftScalar := func(l *proto.Leaf) {
+					var s toy.Scalar
+					if s.UnmarshalBinary(l.Bytes) == nil {
+						nb, _ := s.Add(delta).MarshalBinary()
+						l.SetBytes(nb)
+						touched = true
+					}
+				}
+				tam := &proto.Tamper{From: dev, AllR: func(round int, to ID, kind string, data []byte) ([]byte, bool) {
+					t, err := proto.Parse(data)
+					if err != nil {
+						return data, false
+					}
+					for _, l := range t.Leaves() {
+						switch {
+						case round == 1 && l.Class == "/ZeroR1/verificationVector/verification_vector/data[]" && strings.HasSuffix(l.Path, "data[0]"):
+							shiftElem(l)
+						case round == 1 && l.Class == "/ZeroR1/zeroShare/value[]" && to == maxPrev:
+							shiftScalar(l)
+						case round == 2 && dev == maxPrev && l.Class == "/NextVerificationVectorContribution/verification_vector/data[]" && strings.HasSuffix(l.Path, "data[0]"):
+							shiftElem(l)
+						case round == 2 && dev == maxPrev && l.Class == "/NextShareContribution/value[]":
+							shiftScalar(l)
+						}
+					}
+					return t.Encode(), false
+				}}
+				k := fmt.Sprintf("%s:r1:strategy:rezero", sc.Name)
+				if *intent != "" {
+					w.Emit(map[string]any{"a": "intent", "case": caseNo, "k": k, "proto": sc.Name, "round": 1, "kind": "*", "from": uint64(dev), "to": 0, "leaf": "/strategy", "path": "/strategy", "op": "rezero"})
+					w.Flush()
+				}
+				res := proto.Run(bt.Parties, tam, nil)
+				comp := []ID{}
+				for _, id := range res.Completed {
+					if id != dev {
+						comp = append(comp, id)
+					}
+				}
+				w.Emit(map[string]any{"a": "tamper", "case": caseNo, "k": k, "proto": sc.Name, "round": 1, "kind": "b",
+					"from": uint64(dev), "to": 0, "leaf": "/strategy", "path": "/strategy", "idx": -1, "op": "rezero", "changed": touched,
+					"rejects": rejectsJ(res.Rejects), "completed": ids(comp), "out": bt.Outputs(comp), "stop": res.StopRound,
+					"parties": ids(all), "senderIsPrev": true})
+			}
+		}
 	}
 	fmt.Printf("events=%d\n", w.N)
+}
+
+
+// stratName names a consistent strategy: the round-1 zero sharing re-dealt, the contribution re-dealt, or re-dealt with a matching claim.
+func stratName(round int, claim string) string {
+	switch {
+	case round == 1:
+		return "rezero"
+	case claim != "":
+		return "redealClaim"
+	}
+	return "redeal"
 }
